@@ -160,6 +160,42 @@ PLANS = {
         assumptions=COMMON_ASSUMPTIONS,
         gates=dict(rel=dict(integer_types_collected=12, max_len=4096)),
     ),
+    "C14": dict(
+        lanes=dict(quick=[("rel", N)], thorough=[("rel", N), ("dbg", N)]),
+        rule="cases = (QWT256/512(+Pfs), WT) x largest symbol in {0,1,3,4,15,16,255,256,65535,2^20,2^40,2^40+5,2^70+1} x n in {0,1,3001,100003,1000003 "
+             "(+4000037 thorough)} x the three construction paths (new on a slice, From<Vec>, collect), plus RSQVector256/512 and RSWide (3 / 2 paths). "
+             "Monitor: counting global allocator; retained = live heap bytes after construction and after every temporary incl. the input was dropped "
+             "- live bytes before + size_of the value. Oracle: quad tree 8*retained <= (1+r+eps)*2*n*ceil(bitlen(max)/2) + levels*4KiB with r=1/8 "
+             "(256) or 1/16 (512), eps=0.01 (0.02 with prefetch support); WT <= 1.05*n*bitlen + bitlen*4KiB; RSQVector (1+r+0.01)*2n+4KiB; RSWide "
+             "1.05n+4KiB. bitlen and the level count are computed from the INPUT (an extra level in the structure breaks the bound). Allocation sizes "
+             "are deterministic. Class = (type, length bucket, bitlen of the maximum).",
+        assumptions=["the counting allocator sees every heap allocation of the process (single-threaded measurement window)",
+                     "bitlen(0) is taken as 1 (the code's own convention)"],
+        technique="counting-allocator space monitor with closed-form bound from (n, max)",
+        gates=dict(rel=dict(max_n=1000000, max_levels=20)),
+    ),
+    "C15": dict(
+        lanes=dict(quick=[("rel", N)], thorough=[("rel", N), ("dbg", N)]),
+        rule="cases = (HQWT256/512(+Pfs), HWT) x frequency profiles (uniform over 2..1000 symbols, all-equal, zipf, geometric 2 and 4, one dominant "
+             "symbol, single symbol, two symbols, holes up to 2^20, deep tie-free codes) x n in {1,2,5000,100003,1000003 (+3000017 thorough)}. H0 is "
+             "computed from the input's frequencies in f64. Exact monitor (level lengths through the cfg(qwt_verif) accessor): sum(level lengths)*2 "
+             "<= n*(H0+2) for quad, sum <= n*(H0+1) for binary, and never more level data than the plain tree over the same input. Heap monitor "
+             "(counting allocator, no hook): 8*retained <= (1+r+eps)*n*(H0+k) + 16 B*(max+1) + levels*4KiB.",
+        assumptions=["H0 in f64 with a 1e-9*n guard", "the counting allocator sees every heap allocation of the process"],
+        technique="counting-allocator + level-length monitor against the entropy bound computed from the input",
+        gates=dict(rel=dict(max_n=1000000, single_symbol_inputs=2)),
+    ),
+    "C16": dict(
+        lanes=dict(quick=[("rel", N)], thorough=[("rel", N), ("dbg", N)]),
+        rule="cases = every public SpaceUsage type: the 10 tree aliases x 7 (alphabet, element type) shapes x n in {0,1,3001,100003,1000003} x 3 "
+             "construction paths; BitVector, BitVectorMut (collected, with spare capacity, grown by push, from positions), QVector, RSQVector256/512, "
+             "RSNarrow, RSWide, DArray<false/true> (dense and sparse), Vec<T> with spare capacity, empty Vec with capacity, Box<[T]>, primitives. "
+             "Oracle: |space_usage_byte - retained| <= 3% of retained + 256 B per component (+ 16 B*(max+1) + 4 KiB for Huffman code tables); "
+             "space_usage_KiB/MiB/GiB == bytes/1024^k.",
+        assumptions=["the counting allocator sees every heap allocation of the process"],
+        technique="counting-allocator monitor vs reported space usage",
+        gates=dict(rel=dict(max_n=1000000)),
+    ),
     "C17": dict(
         lanes=dict(quick=[("rel", N), ("dbg", N), ("miri", N)],
                    thorough=[("rel", N), ("dbg", N), ("miri", N)]),
